@@ -20,7 +20,6 @@ EXTENDS EvmTx, Json
 Trace == ndJsonDeserialize("trace.ndjson")
 Hdr   == Trace[1].cfg
 
-ToSet(s) == {s[i] : i \in DOMAIN s}
 t_ACCTS     == ToSet(Hdr.accts)
 t_CONTRACTS == ToSet(Hdr.contracts)
 t_PREC      == "1000000000000000000"
@@ -28,8 +27,10 @@ t_MINGP     == Hdr.mingp
 t_MULT      == Hdr.mult
 t_BLOCKGAS  == Hdr.blockgas
 t_GATEWAY   == Hdr.gateway
-\* deviations of the current tree (known_findings.json): the strict lane follows the code as it is
-t_DEVS      == {"DEV_SplitBalanceCheck", "DEV_RevertedFrameKeepsPrecompileWrites"}
+\* deviations of the current tree = the C19 entries of known_findings.json that are not `fixed`
+\* (tools/fam_evmtx.py passes them to the harness, which writes them into the header): the strict lane
+\* follows the code as it is
+t_DEVS      == ToSet(Hdr.devs)
 
 VARIABLES l, S, D
 \* l: next line; S: observed store; D: observed digests
@@ -43,32 +44,44 @@ FromLog(j) ==
     bg    |-> NC(j.bg),
     bf    |-> NC(j.bf),
     stor  |-> [c \in {"c", "w", "w1"} |-> NC(j.stor[c])],
-    dep   |-> NC(j.dep) ]
+    dep   |-> NC(j.dep),
+    wd    |-> [a \in ACCTS |-> NC(j.wd[a])],
+    dl    |-> [a \in ACCTS |-> NC(j.dl[a])] ]
 
-TxOf(a) ==
-  [ s |-> a.t.s, to |-> a.t.to, ty |-> a.t.ty, gas |-> a.t.gas, price |-> NC(a.t.price), tip |-> NC(a.t.tip),
-    value |-> NC(a.t.value), nonce |-> a.t.nonce, intr |-> a.t.intr, mode |-> a.t.mode,
-    word |-> NC(a.t.word), amt |-> NC(a.t.amt) ]
+TxOfT(t) ==
+  [ s |-> t.s, to |-> t.to, ty |-> t.ty, gas |-> t.gas, price |-> NC(t.price), tip |-> NC(t.tip),
+    value |-> NC(t.value), nonce |-> t.nonce, intr |-> t.intr, mode |-> t.mode,
+    word |-> NC(t.word), op |-> t.op, amt |-> NC(t.amt) ]
+TxOf(a) == TxOfT(a.t)
+XOf(x) == [x EXCEPT !.wflag = NC(@)]
 
 (***************************************************************************)
 (* property lane: digest clauses                                            *)
 (*   dg[m] = SHA-256 of module store m (bank / acc / evm without the        *)
 (*   entries of the projected parties, which are compared field by field).  *)
 (***************************************************************************)
-DigestTags(pre, post, dpre, dpost, t, o) ==
-  LET inc == Included(pre, post, o)
-      same(M) == \A m \in M : dpost[m] = dpre[m]
+\* inc: the tx left a trace / was executed; failed: every Ethereum tx in it failed;
+\* plain: only transfers between accounts; restaking: some message targets the precompile / gateway fixtures
+DigestTagsG(dpre, dpost, inc, failed, plain, restaking) ==
+  LET same(M) == \A m \in M : dpost[m] = dpre[m]
       all == DOMAIN dpre
   IN
   \* not included: no trace anywhere
   T((~inc) => dpost = dpre, "C19_RejectedChangedState") \cup
   \* included but failed: nothing but the fee and the nonce (both projected) may change
-  T((inc /\ Failed(o)) => dpost = dpre, "C19_FailedChangedState") \cup
+  T((inc /\ failed) => dpost = dpre, "C19_FailedChangedState") \cup
   \* (drift, not C19) a plain transfer between existing accounts touches no module state besides the
-  \* bank/auth entries of the parties; restaking stores move only through the assets precompile
-  T((inc /\ ~Failed(o) /\ t.to \in ACCTS) => dpost = dpre, "STRICT_transferDigests") \cup
-  T((inc /\ ~Failed(o) /\ t.to \notin {"pre", "gw", "w"}) => same(all \cap {"assets", "delegation", "operator", "dogfood", "avs", "reward", "exoslash", "oracle"}),
+  \* bank/auth entries of the parties; restaking stores move only through the restaking precompiles
+  T((inc /\ ~failed /\ plain) => dpost = dpre, "STRICT_transferDigests") \cup
+  T((inc /\ ~failed /\ ~restaking) => same(all \cap {"assets", "delegation", "operator", "dogfood", "avs", "reward", "exoslash", "oracle"}),
     "STRICT_restakingDigests")
+
+DigestTags(pre, post, dpre, dpost, t, o) ==
+  DigestTagsG(dpre, dpost, Included(pre, post, o), Failed(o), t.to \in ACCTS, t.to \in {"pre", "gw", "w"})
+
+DigestTagsBatch(pre, post, dpre, dpost, ts, o) ==
+  DigestTagsG(dpre, dpost, o.code = 0 \/ Changed(pre, post), \A i \in DOMAIN ts : Failed(ObsOf(o, i)),
+              \A i \in DOMAIN ts : ts[i].to \in ACCTS, \E i \in DOMAIN ts : ts[i].to \in {"pre", "gw", "w"})
 
 (***************************************************************************)
 (* strict lane                                                             *)
@@ -77,8 +90,9 @@ StrictTags(pre, post, ev, a, o) ==
   LET r == Apply(pre, ev, a) IN
   T(r.st = post \/ ~PrintT("DIFF " \o ToJson([exp |-> r.st, obs |-> post, code |-> r.code])), "STRICT_state_" \o ev) \cup
   T(r.code = o.code, "STRICT_code_" \o ev) \cup
-  T(ev # "Tx" \/ o.code \notin {0, 1, 11} \/ NEq(r.gu, o.gu), "STRICT_gas_" \o ev) \cup
+  T(ev = "NewBlock" \/ o.code \notin {0, 1, 11} \/ NEq(r.gu, o.gu), "STRICT_gas_" \o ev) \cup
   T(ev # "Tx" \/ r.vmfail = o.vmfail, "STRICT_vmfail_" \o ev) \cup
+  T(ev # "Batch" \/ o.code # 0 \/ (Len(r.gus) = Len(o.gus) /\ \A i \in DOMAIN o.gus : NEq(r.gus[i], o.gus[i]) /\ r.vmfails[i] = o.vmfails[i]), "STRICT_batchResults") \cup
   \* mempool admission (ante handler in CheckTx mode on the same pre-state)
   T(ev # "Tx" \/ AdmitCheck(pre, a.t) = o.chk, "STRICT_checktx") \cup
   \* a plain transfer to an account consumes exactly the intrinsic gas in the EVM
@@ -101,9 +115,13 @@ Next ==
        /\ D' = line.dg
      ELSE
        LET post == FromLog(line.st)
-           a    == IF line.ev = "Tx" THEN [t |-> TxOf(line.a), x |-> [line.a.x EXCEPT !.wflag = NC(@)]] ELSE [bf |-> NC(line.a.bf), fc |-> NC(line.a.fc)]
+           a    == IF line.ev = "Tx" THEN [t |-> TxOf(line.a), x |-> XOf(line.a.x)]
+                   ELSE IF line.ev = "Batch" THEN [ts |-> [i \in DOMAIN line.a.ts |-> TxOfT(line.a.ts[i])], xs |-> [i \in DOMAIN line.a.xs |-> XOf(line.a.xs[i])]]
+                   ELSE [bf |-> NC(line.a.bf), fc |-> NC(line.a.fc), wd |-> [p \in ACCTS |-> NC(line.a.wd[p])]]
            o    == line.o
-           tags == (IF line.ev = "Tx" THEN C19Tags(S, post, a.t, o) \cup DigestTags(S, post, D, line.dg, a.t, o) ELSE {}) \cup
+           tags == (IF line.ev = "Tx" THEN C19Tags(S, post, a.t, o) \cup DigestTags(S, post, D, line.dg, a.t, o)
+                    ELSE IF line.ev = "Batch" THEN C19BatchTags(S, post, a.ts, o) \cup DigestTagsBatch(S, post, D, line.dg, a.ts, o)
+                    ELSE {}) \cup
                    StrictTags(S, post, line.ev, a, o)
        IN /\ S' = post
           /\ D' = line.dg
